@@ -200,6 +200,40 @@ impl<'a> TokenBasedLuaGenerator<'a> {
                 self.write_symbol(":");
             }
             self.write_identifier(method);
+
+            if call.has_method_type_instantiation() {
+                let generated_tokens = self
+                    .generate_function_call_tokens(call)
+                    .type_instantiation_tokens;
+
+                if let Some(type_tokens) = tokens
+                    .type_instantiation_tokens
+                    .as_ref()
+                    .or(generated_tokens.as_ref())
+                {
+                    self.write_token(&type_tokens.first_opening_list);
+                    self.write_token(&type_tokens.second_opening_list);
+
+                    let last_index = call
+                        .get_method_type_instantiation()
+                        .count()
+                        .saturating_sub(1);
+
+                    for (i, r#type) in call.get_method_type_instantiation().enumerate() {
+                        self.write_type(r#type);
+                        if i < last_index {
+                            if let Some(comma) = type_tokens.commas.get(i) {
+                                self.write_token(comma);
+                            } else {
+                                self.write_symbol(",");
+                            }
+                        }
+                    }
+
+                    self.write_token(&type_tokens.first_closing_list);
+                    self.write_token(&type_tokens.second_closing_list);
+                }
+            }
         }
         self.write_arguments(call.get_arguments());
     }
